@@ -15,7 +15,7 @@ from unittest import mock
 
 from vlib import core, corr
 
-GENERATORS = ["c17_bits"]
+GENERATORS = ["c17_bits", "c17_blocks"]
 DEPENDS = ["Base", "Tok", "RangeSet", "Codec", "Varint", "AckFrame", "Header", "TParams", "TlsCodec", "C17"]
 TRUSTED_BASE = [
     "extraction (ExtrOcamlBasic only; Z kept as the extracted inductive) + coq/extract/driver.ml for running the models",
